@@ -219,6 +219,16 @@ def main():
     for pr in aud["problems"]:
         findings.append({"kind": "proof", "detail": pr, "concrete": False, "broken": f"Props/{pid}.v: {pr[:200]}"})
 
+    chk_note = None
+    if ok and tier == "thorough":
+        # independent re-check of the property's compiled closure
+        rc, out, err = sh(["timeout", "1800", "coqchk", "-silent", "-o", "-Q", COQ, "LV", f"LV.Props.{pid}"], cwd=COQ, timeout=1900)
+        txt = out + err
+        if rc != 0 or "Axioms: <none>" not in txt.replace("* ", ""):
+            findings.append({"kind": "proof", "detail": txt[-1500:], "concrete": False,
+                             "broken": f"coqchk on Props/{pid}.v: " + ("failed" if rc != 0 else "axioms reported")})
+        else:
+            chk_note = "coqchk: closure re-checked, Axioms: <none>, no type-in-type, no unsafe fixpoints, no assumed positivity"
     result = {"coverage": {}, "violations": [], "broken": [], "known": []}
     harness_ok = os.path.exists(corr.HARNESS)
     if harness_ok and os.path.exists(corr.DRIVER):
@@ -254,6 +264,8 @@ def main():
     cov["theorems"] = aud["theorems"]
     cov["checker_cmd"] = f"coqc -Q coq LV coq/Props/{pid}.v (after make in coq/); coqchk in the thorough tier"
     cov["trusted_base"] = props.TRUSTED_BASE
+    if chk_note:
+        cov["coqchk"] = chk_note
     write_evidence(pid, tier, seed, props.REGISTRY[pid].level, cov, props.REGISTRY[pid].assumptions,
                    time.time() - t0, len(concrete) + (1 if broken and not concrete else 0))
     print(f"{pid}: {'FAIL' if rc else 'ok'} obligations={cov['obligations']} discharged={cov['discharged']} "
